@@ -23,7 +23,8 @@ ASSUMPTIONS = [
 ]
 N_RANDOM = {'quick': 1500, 'thorough': 10000}
 STAGES = ['shuffle_once', 'reshuffle', 'local', 'local_copy', 'reshuffle_catch', 'reshuffle_apply', 'reshuffle_copy',
-          'reshuffle_prefetch', 'reshuffle_prefetch_thread1', 'reshuffle_and_copies', 'local_items', 'reshuffle_items', 'tile_shuffle', 'choice']
+          'reshuffle_prefetch', 'reshuffle_prefetch_thread1', 'reshuffle_and_copies', 'local_items', 'reshuffle_items', 'tile_shuffle', 'choice',
+          'reshuffle_filter_frozen', 'reshuffle_batch_frozen', 'reshuffle_local_frozen']
 
 
 # stages whose iteration runs ReShuffleDataset.__iter__ directly on the shared object (the K1 situation)
@@ -50,6 +51,15 @@ def build(stage, n, buf, sd, extra):
         return base.shuffle(True, rng=rng).map(lambda x: x).copy(), n
     if stage == 'reshuffle_catch':
         return base.shuffle(True, rng=rng).map(lambda x: x).catch(), n
+    if stage in ('reshuffle_filter_frozen', 'reshuffle_batch_frozen', 'reshuffle_local_frozen'):
+        # a FROZEN copy the caller keeps (one fixed order), above a per-epoch reshuffle and a stage that forwards
+        # copy(freeze): iterators in flight over it each see the whole dataset
+        rs = base.shuffle(True, rng=rng)
+        if stage == 'reshuffle_filter_frozen':
+            return rs.filter(lambda x: True).copy(freeze=True), n
+        if stage == 'reshuffle_batch_frozen':
+            return rs.batch(2).unbatch().copy(freeze=True), n
+        return rs.shuffle(True, rng=np.random.RandomState(sd + 1), buffer_size=2).copy(freeze=True), n
     if stage == 'reshuffle_and_copies':
         rs = base.shuffle(True, rng=rng)
         return [rs, rs.copy(), rs.map(lambda x: x).copy()], n  # every iterator gets its OWN object
@@ -247,6 +257,25 @@ def check(case):
     desc = f'{case}'
     if case.get('compose'):
         comp = case['compose']
+        if comp in ('zip_copy', 'intersperse_copy', 'key_zip_copy', 'concat_copy'):
+            # copy() of a composition that lists ONE dataset object several times: the copy consists of independent
+            # copies (that is what ZipDataset.copy & co. do), so whatever the shared original does, every component
+            # of the COPY is a permutation
+            if comp == 'zip_copy':
+                pairs = list(ds.zip(ds).copy())
+                comps = [[a for a, _ in pairs], [b for _, b in pairs]]
+            elif comp == 'intersperse_copy':
+                allv = list(ds.intersperse(ds).map(lambda x: x).copy())
+                comps = [sorted(allv)[0::2], sorted(allv)[1::2]]
+            else:
+                allv = list(ds.concatenate(ds).copy())
+                comps = [allv[:n], allv[n:]]
+            for ci, c_ in enumerate(comps):
+                c_ = [none_at if x is None else x for x in c_]
+                if sorted(c_) != list(range(n)):
+                    raise Violation(f'not-a-permutation|{stage}+{comp}',
+                                    f'{desc}\ncomponent {ci} of the copied composition yielded {c_}; input 0..{n - 1}')
+            return 1
         if comp == 'zip':
             pairs = list(ds.zip(ds))
             outs = [[a for a, _ in pairs], [b for _, b in pairs]]
@@ -346,7 +375,7 @@ def st_case(draw):
             case['stage'] = 'shuffle_once'
     if case['stage'] in ('reshuffle', 'shuffle_once', 'local') and n >= 1 and \
             draw(st.integers(0, 4)) == 0:
-        case['compose'] = draw(st.sampled_from(['zip', 'intersperse']))
+        case['compose'] = draw(st.sampled_from(['zip', 'intersperse', 'zip_copy', 'intersperse_copy', 'concat_copy']))
         return case
     if n and draw(st.integers(0, 3)) == 0:
         case['none_at'] = draw(st.integers(0, n - 1))  # one example is None (a legitimate example)
@@ -380,7 +409,8 @@ def run_shard(tier, idx, nshards, rec, known):
     k = 0
     for stage in ['shuffle_once', 'reshuffle', 'local', 'local_copy', 'reshuffle_catch', 'reshuffle_apply',
                   'reshuffle_copy', 'reshuffle_prefetch', 'reshuffle_prefetch_thread1', 'reshuffle_and_copies',
-                  'local_items', 'reshuffle_items']:
+                  'local_items', 'reshuffle_items', 'reshuffle_filter_frozen', 'reshuffle_batch_frozen',
+                  'reshuffle_local_frozen']:
         for n_iters, nmax in ((1, 5), (2, nmax2), (3, nmax3)):
             for n in range(0, nmax + 1):
                 bufs = range(1, n + 2) if stage.startswith('local') else [1]
@@ -412,6 +442,14 @@ def run_shard(tier, idx, nshards, rec, known):
                 case = {'stage': stage, 'n': n, 'buffer': 50, 'seed': 7, 'iters': 1, 'word': []}
                 if not one(case):
                     return [out]
+    if idx == 2 % nshards:
+        for stage in ('reshuffle', 'shuffle_once', 'local'):
+            for comp in ('zip_copy', 'intersperse_copy', 'concat_copy'):
+                for n in (1, 2, 3, 4):
+                    for sd in range(6):
+                        case = {'stage': stage, 'n': n, 'buffer': 2, 'seed': sd, 'compose': comp}
+                        if not one(case):
+                            return [out]
     if idx == 1 % nshards:
         # a small sample without replacement from a long dataset (sampling shortcuts only pay off - and only go
         # wrong - there): 40 / 400 seeds over one object
